@@ -6,6 +6,7 @@ from .. import astq, spec
 from .. import sym as S
 from ..cfg import CFG, header_walk
 from ..dataflow import ReachingDefs, containing_node
+from ..report import MISSING
 from ..model import AnalysisError
 from ..symeval import SymEval
 from . import cli_common as cc
@@ -238,7 +239,7 @@ def returned_buffer(ctx):
     g = [a for a in astq.ancestors(pm, warns[0]) if isinstance(a, ast.If)]
     ok = len(g) == 1 and isinstance(g[0].test, ast.Compare) and len(g[0].test.ops) == 1 and isinstance(g[0].test.ops[0], ast.NotEq) \
         and {astq.text(g[0].test.left), astq.text(g[0].test.comparators[0])} == {"sampsdone", "sampcount"}
-    ctx.check(ok, R3, f, g[0] if g else warns[0], "a warning is issued exactly when fewer samples were read than promised",
+    ctx.check(ok, R3, f, g[0] if g else MISSING(warns[0]), "a warning is issued exactly when fewer samples were read than promised",
               "the short-data warning is not guarded by `sampsdone != sampcount`")
     cfg = CFG(f.node)
     wn = containing_node(cfg, f, warns[0])
@@ -371,7 +372,7 @@ def conversions(ctx):
         if isinstance(n, ast.Assign) and isinstance(n.value, ast.Subscript) and isinstance(n.value.value, ast.Name) and n.value.value.id in spec.G711:
             gg = [a for a in astq.ancestors(pm, n) if isinstance(a, ast.If)]
             tabs[n.value.value.id] = astq.text(gg[0].test) if gg else ""
-            par = gg[0] if gg else None
+            par = gg[0] if gg else MISSING(None)
             if par is not None and n in par.orelse:
                 tabs[n.value.value.id] = "else of " + astq.text(par.test)
     ok = "ALAW2PCM" in tabs and "alaw" in tabs["ALAW2PCM"] and "convert" in tabs["ALAW2PCM"] and not tabs["ALAW2PCM"].startswith("else") \
